@@ -124,6 +124,8 @@ class Config:
         s.solver = 'default'
         s.flat = True
         s.keep_paths = False
+        s.cross_check = 0          # number of queries per unit also given to cvc5 (thorough tier)
+        s.cross_check_ms = 10000
         for k, v in kw.items():
             setattr(s, k, v)
 
@@ -176,13 +178,57 @@ class Engine:
         s.traces = []
         s.path_kinds = {}
         s.paths = []
+        s.xc = {'done': 0, 'agree': 0, 'disagree': 0, 'unknown': 0, 'error': 0, 'skipped': 0, 'time': 0.0}
         from models import Models
         s.models = Models(s)
 
     # ------------------------------------------------------------------ solver
-    def check(s, st, extra=None, want_model=False):
+    def cross_check(s, st, extra, rs):
+        """thorough tier: hand the same verification condition to cvc5 (second solver). A contradiction makes the run
+        inconclusive; unknown/timeout/parse error is recorded as 'not cross-checked' and changes nothing."""
+        import subprocess, tempfile, os
+        x = s.xc
+        if x['done'] >= s.cfg.cross_check:
+            return
+        x['done'] += 1
+        try:
+            s2 = z3.Solver()
+            for c in st.pc: s2.add(c)
+            if extra is not None: s2.add(extra)
+            txt = '(set-logic ALL)\n' + s2.to_smt2().replace('(set-info :status unknown)', '')
+            if len(txt) > 4_000_000:
+                x['skipped'] += 1; return
+            fd, path = tempfile.mkstemp(suffix='.smt2'); os.write(fd, txt.encode()); os.close(fd)
+            try:
+                r = subprocess.run(['cvc5', f'--tlimit={s.cfg.cross_check_ms}', path], stdout=subprocess.PIPE, stderr=subprocess.PIPE, text=True,
+                                   timeout=s.cfg.cross_check_ms / 1000 + 20)
+                out = r.stdout.strip().splitlines()
+                ans = out[0].strip() if out else ''
+                if 'timeout' in r.stdout or 'timeout' in r.stderr:
+                    x['unknown'] += 1; return
+                if '(error' in r.stdout or '(error' in r.stderr or r.returncode not in (0,):
+                    if ans not in ('sat', 'unsat'):
+                        x['error'] += 1; return
+                if ans in ('sat', 'unsat'):
+                    if ans == rs: x['agree'] += 1
+                    else:
+                        x['disagree'] += 1
+                        s.note_inconclusive(f'second solver disagrees: z3 {rs}, cvc5 {ans}')
+                else:
+                    x['unknown'] += 1
+            finally:
+                os.unlink(path)
+        except Exception as ex:
+            x['error'] += 1
+
+    def check(s, st, extra=None, want_model=False, important=False):
         t = time.time()
         rs, m = s._check_with(s.solver, st, extra, want_model)
+        if s.cfg.cross_check and rs in ('sat', 'unsat') and (important or s.xc['done'] < s.cfg.cross_check // 4):
+            tq = time.time()
+            s.cross_check(st, extra, rs)
+            s.xc['time'] += time.time() - tq
+            t += time.time() - tq
         if rs == 'unknown' and s.fallback is not None:
             # the eager SAT pipeline gives up on some shapes (too many UF applications, ...): ask the SMT core
             rs, m = s._check_with(s.fallback, st, extra, want_model)
